@@ -5,6 +5,7 @@
 (*   dia   - diamond, primitive rhombohedral cell of the F lattice, Fd-3m    *)
 (*   rut   - rutile-like AB2, P4_2/mnm, six atoms                            *)
 (*   zb    - zincblende, same cell, F-43m (symmorphic, Td)                    *)
+(*   scx, hcpx - sc and hcp with generic spring shells                       *)
 EXTENDS Catalogue
 
 FccPrim == <<<<2,1,1>>,<<1,2,1>>,<<1,1,2>>>>
@@ -30,7 +31,18 @@ Rutile ==
    springs |-> (<<1,2,72>> :> <<5,1>>) @@ (<<1,2,54>> :> <<4,1>>) @@ (<<2,2,72>> :> <<1,1>>) @@ (<<1,1,144>> :> <<1,1>>)
                @@ (<<2,2,126>> :> <<2,1>>) @@ (<<1,1,198>> :> <<1,0>>)]
 
-XEntries == Entries \o <<Diamond, Zincblende, Rutile>>
+(* sc and hcp of Catalogue.tla with more shells and tangential constants: the plain entries have accidental degeneracies   *)
+(* (different irreps at one frequency) off Gamma, which no statement about irreducibility can be tested on                *)
+ScX ==
+  [name |-> "scx", G |-> Cubic, D |-> 1, reach |-> 3,
+   atoms |-> <<At(1, <<0,0,0>>, 4)>>,
+   springs |-> (<<1,1,1>> :> <<5,1>>) @@ (<<1,1,2>> :> <<2,1>>) @@ (<<1,1,3>> :> <<1,2>>) @@ (<<1,1,4>> :> <<1,0>>)]
+HcpX ==
+  [name |-> "hcpx", G |-> Hexagonal(3), D |-> 6, reach |-> 3,
+   atoms |-> <<At(1, <<0,0,0>>, 5), At(1, <<2,4,3>>, 5)>>,
+   springs |-> (<<1,1,72>> :> <<3,1>>) @@ (<<1,1,51>> :> <<2,1>>) @@ (<<1,1,216>> :> <<1,1>>) @@ (<<1,1,108>> :> <<1,2>>)]
+
+XEntries == Entries \o <<Diamond, Zincblende, Rutile, ScX, HcpX>>
 XEntryByName(n) == XEntries[CHOOSE i \in 1..Len(XEntries) : XEntries[i].name = n]
 XNames == {XEntries[i].name : i \in 1..Len(XEntries)}
 =============================================================================
